@@ -162,6 +162,53 @@ theorem spork_authority (st st' : SState) (s : Sender) (fh id : Nat)
   | community => right; simpa [authorised] using ha
   | other => simp [authorised] at ha
 
+/-- the window-parametrised definitions the driver evaluates are the model's at the regenerated mainnet window -/
+theorem createW_mainnet (st : SState) (s : Sender) (fh id : Nat) :
+    createW mainnetWindow st s fh id = create st s fh id := rfl
+
+theorem activateW_mainnet (st : SState) (s : Sender) (fh id : Nat) :
+    activateW mainnetWindow st s fh id = activate st s fh id := rfl
+
+/-- T4 for every window (the statement the correspondence stream exercises with a window of a few momentums): whatever
+    the state, the spork id and the height, a create or activate call succeeds only for the spork key, or for the
+    community key while the frontier height the call is evaluated against lies inside the window. The height is the
+    frontier of the executing contract's context — not a value the sender chooses. -/
+theorem spork_authority_window (w : Nat × Nat) (st st' : SState) (s : Sender) (fh id : Nat)
+    (h : createW w st s fh id = some st' ∨ activateW w st s fh id = some st') :
+    s = .sporkKey ∨ (s = .community ∧ w.1 ≤ fh ∧ fh < w.2) := by
+  have ha : authorisedW w s fh = true := by
+    rcases h with h | h
+    · unfold createW at h; split at h
+      · cases h
+      · rename_i hn; simpa using hn
+    · unfold activateW at h; split at h
+      · cases h
+      · rename_i hn; simpa using hn
+  cases s with
+  | sporkKey => left; rfl
+  | community => right; simpa [authorisedW] using ha
+  | other => simp [authorisedW] at ha
+
+/-- outside the window the community key changes nothing, inside it acts like the spork key -/
+theorem community_outside_window (w : Nat × Nat) (st : SState) (fh id : Nat) (h : ¬ (w.1 ≤ fh ∧ fh < w.2)) :
+    createW w st .community fh id = none ∧ activateW w st .community fh id = none := by
+  have : authorisedW w .community fh = false := by
+    simp only [authorisedW]
+    by_cases h1 : w.1 ≤ fh
+    · by_cases h2 : fh < w.2
+      · exact absurd ⟨h1, h2⟩ h
+      · simp [h2]
+    · simp [h1]
+  simp [createW, activateW, this]
+
+theorem community_inside_window (w : Nat × Nat) (st : SState) (fh id : Nat) (h : w.1 ≤ fh ∧ fh < w.2) :
+    createW w st .community fh id = createW w st .sporkKey fh id ∧
+    activateW w st .community fh id = activateW w st .sporkKey fh id := by
+  simp [createW, activateW, authorisedW, h.1, h.2]
+
+example : createW (5, 10) [] .community 4 1 = none ∧ createW (5, 10) [] .community 10 1 = none ∧
+    (createW (5, 10) [] .community 5 1).isSome ∧ (createW (5, 10) [] .community 9 1).isSome := by decide
+
 /-- T5 `halt_on_unknown`: the node reports unimplemented sporks (and its callers stop) exactly when some activated
     spork whose enforcement height has been reached is not among the implemented ones -/
 theorem halt_on_unknown (st : SState) (h : Nat) (impl : List Nat) :
